@@ -62,3 +62,6 @@ add("C04", "fault_enumeration", "power-loss pattern enumeration over every crash
 add("C06", "exploration", "exhaustive byte-level mutation enumeration of real WAL files, each mutant restarted through the real startup path",
     "4 WAL files written by the real write path; truncation at every offset, substitution of every byte by 8 (thorough 256) values, 1/2/8-byte insertions at every offset, every length/id field set to 10 extreme values, duplication/swap of every message, every header status pair; oracle: no panic, no hang, applied set between must and may, checkpointed data intact, nothing outside the root",
     TB + "; independent WAL decoder (mc/walfmt.go) to locate records", "seqmc")
+add("C34", "model_checking", "explicit-state search of the restart graph: crash points of histories x crash points of the startup itself, every state closed by a real startup",
+    "states = device images with the server down, de-duplicated by content hash; level 1 = 5 histories crashed at every device-operation prefix (+ planted empty/header-only/replayed/unparsable WAL files), level 2 = a startup crashed at every one of its own device operations, level 3 (thorough) = a second crashed startup; invariant evaluated in every state by a complete startup: every acknowledged or committed row of a still-existing bucket visible, own WAL untouched, no foreign WAL left, a further restart writes nothing",
+    CR + "; independent WAL/TG decoder", "crashmc")
